@@ -107,20 +107,25 @@ func checkSpans(data []byte, cse string) (ms []mismatch, st spanStats) {
 	seenClass := map[string]int{}
 	report := func(class, detail string) {
 		seenClass[class]++
-		if seenClass[class] > 3 {
+		if seenClass[class] > 1 {
 			return
 		}
 		ms = append(ms, mismatch{Class: class, Text: base64.StdEncoding.EncodeToString(data), Units: []string{truncateCase(cse)}, Detail: detail})
 	}
+	rt := refTable(data)
 	check := func(where string, p ast.SourcePos, off int) {
-		line, col, onB, def := refPos(data, off)
-		if !onB || off > len(data) {
+		if off < 0 || off > len(data) {
+			report(where+":offset-outside-file", fmt.Sprintf("offset %d of %d", off, len(data)))
+			return
+		}
+		line, col, onB, def := rt[off].line, rt[off].col, rt[off].boundary, rt[off].colDefined
+		if !onB {
 			st.MidCharSkipped++
 			return
 		}
 		st.Checks++
 		if p.Line != line {
-			report(where+":line", fmt.Sprintf("offset %d: got %d:%d want %d:%d", off, p.Line, p.Col, line, col))
+			report("line", fmt.Sprintf("%s at offset %d: got %d:%d want %d:%d", where, off, p.Line, p.Col, line, col))
 			return
 		}
 		if !def {
@@ -128,7 +133,7 @@ func checkSpans(data []byte, cse string) (ms []mismatch, st spanStats) {
 			return
 		}
 		if p.Col != col {
-			report(where+":col", fmt.Sprintf("offset %d: got %d:%d want %d:%d", off, p.Line, p.Col, line, col))
+			report("col:"+where, fmt.Sprintf("offset %d: got %d:%d want %d:%d", off, p.Line, p.Col, line, col))
 		}
 	}
 	o := doParse(data, false)
@@ -161,7 +166,9 @@ func checkSpans(data []byte, cse string) (ms []mismatch, st spanStats) {
 		s, e := info.Start(), info.End()
 		raw := info.RawText()
 		check("item-start", s, s.Offset)
-		if _, cmt := f.GetItem(it); cmt.IsValid() && !orphan {
+		if orphan {
+			// only the start of an unattributed comment is observable
+		} else if _, cmt := f.GetItem(it); cmt.IsValid() {
 			check("comment-end", e, e.Offset)
 		} else if len(raw) > 0 {
 			check("item-end", e, s.Offset+len(raw))
